@@ -90,3 +90,28 @@ def sany(path):
                        capture_output=True, text=True)
     ok = p.returncode == 0 and "error" not in p.stdout.lower().replace("errors: 0", "")
     return ok, p.stdout + p.stderr
+
+
+def apalache_inductive(module, qmax, timeout=900):
+    """Apalache: Init => IndInv (length 0) and IndInit /\\ Next => IndInv' (length 1) for module (spec/<module>, constant QMax
+    rewritten to qmax).  Returns (ok: bool | None, text): None = the tool did not run / did not finish (auxiliary step)."""
+    import shutil as _sh
+    if _sh.which("apalache-mc") is None: return None, "apalache-mc not installed"
+    scratch = tempfile.mkdtemp(prefix="vapa_", dir=os.environ.get("VERIF_TMP", "/tmp"))
+    try:
+        src = open(os.path.join(SPEC, module)).read()
+        src = re.sub(r"^QMax == \d+", "QMax == %d" % qmax, src, flags=re.M)
+        open(os.path.join(scratch, module), "w").write(src)
+        outs = []
+        for args in (["--init=Init", "--inv=IndInv", "--length=0"], ["--init=IndInit", "--inv=IndInv", "--length=1"]):
+            try:
+                p = subprocess.run(["apalache-mc", "check", "--out-dir=" + os.path.join(scratch, "out")] + args + [module], cwd=scratch, capture_output=True, text=True, timeout=timeout)
+            except subprocess.TimeoutExpired:
+                return None, "apalache-mc timed out after %d s" % timeout
+            outs.append(p.stdout[-600:])
+            if "EXITCODE: OK" not in p.stdout:
+                if "violat" in p.stdout.lower() or "EXITCODE: ERROR (12)" in p.stdout: return False, p.stdout[-1500:]
+                return None, "apalache-mc did not finish normally: " + p.stdout[-500:]
+        return True, "inductive for QMax = %d: %s" % (qmax, " | ".join(re.findall(r"Total time: [0-9.]+ sec", "".join(outs))))
+    finally:
+        shutil.rmtree(scratch, ignore_errors=True)
